@@ -934,4 +934,925 @@ theorem inplace_len1_grows_numpy_rejects :
       = .error .shape := by
   decide
 
+/-! ## the operators as a family: `dense_hom_<operand kind>` and `err_iff`
+
+`Arith.fn op` is the element function of `+ − × ÷`.  For `÷` NumPy's result is finite exactly when no
+divisor is zero (`np1div`); there the kernels agree with it, otherwise they raise `zeroDiv` or store
+`0` for `0/0` (the documented deviation required by `tests/test_sparse.py`). -/
+
+theorem mul_fn_eq : (fun x y : Rat => x * y) = Arith.fn .mul := rfl
+theorem div_fn_eq : (fun x y : Rat => x / y) = Arith.fn .truediv := rfl
+
+/-- **dense_hom, sparse operand** (`a op b`, `a op= b` where NumPy accepts it): the dense image of the
+result is NumPy's result on the dense images, and the result is well formed -/
+theorem dense_hom_arith_sparse (op : Arith) (ip : Bool) (a b c : SV) (ha : a.WF) (hb : b.WF)
+    (h : SV.arithSparse op ip a b = .ok c) :
+    c.WF ∧ np1 op.fn a.toDense b.toDense = .ok c.toDense := by
+  cases op <;> simp only [SV.arithSparse] at h
+  · rw [← addFn_false]; exact addSparse_ok false a b c ha hb h
+  · rw [← addFn_true]; exact addSparse_ok true a b c ha hb h
+  · exact mulSparse_ok a b c ha hb h
+  · exact divSparse_ok ip a b c ha hb h
+
+/-- **dense_hom, dense 1-d operand** (list or ndarray) -/
+theorem dense_hom_arith_array (op : Arith) (a c : SV) (l : Vec) (ha : a.WF)
+    (h : SV.arithArray op a l = .ok c) :
+    c.WF ∧ np1 op.fn a.toDense l = .ok c.toDense := by
+  cases op <;> simp only [SV.arithArray] at h
+  · rw [← addFn_false]; exact addArray_ok false a c l ha h
+  · rw [← addFn_true]; exact addArray_ok true a c l ha h
+  · exact mulArray_ok a c l ha h
+  · exact divArray_ok a c l ha h
+
+/-- **dense_hom, scalar operand** -/
+theorem dense_hom_arith_scalar (op : Arith) (a c : SV) (x : Rat) (ha : a.WF)
+    (h : SV.arithScalar op a x = .ok c) :
+    c.WF ∧ c.toDense = np1s op.fn a.toDense x := by
+  cases op <;> simp only [SV.arithScalar, Except.ok.injEq] at h
+  · subst h; exact addScalar_ok a x ha
+  · subst h
+    refine ⟨(addScalar_ok a (-x) ha).1, ?_⟩
+    rw [(addScalar_ok a (-x) ha).2]
+    unfold np1s
+    apply List.map_congr_left
+    intro y _
+    simp only [Arith.fn]; ring
+  · subst h; exact mulScalar_ok a x ha
+  · exact divScalar_ok a c x ha h
+
+/-- NumPy's true division is finite exactly when no divisor is zero; then it is the plain quotient -/
+theorem np1div_eq_np1 (a b : Vec) (hb : b.any (· == 0) = false) : np1div a b = np1 (· / ·) a b := by
+  unfold np1div
+  cases np1 (· / ·) a b with
+  | error e => rfl
+  | ok r => simp [hb]
+
+/-- **dense_hom for true division under the guard that NumPy's result is finite** -/
+theorem dense_hom_truediv_sparse (ip : Bool) (a b c : SV) (ha : a.WF) (hb : b.WF)
+    (hfin : b.toDense.any (· == 0) = false) (h : SV.divSparse ip a b = .ok c) :
+    c.WF ∧ np1div a.toDense b.toDense = .ok c.toDense := by
+  rw [np1div_eq_np1 _ _ hfin]
+  exact divSparse_ok ip a b c ha hb h
+
+theorem dense_hom_truediv_array (a c : SV) (l : Vec) (ha : a.WF)
+    (hfin : l.any (· == 0) = false) (h : SV.divArray a l = .ok c) :
+    c.WF ∧ np1div a.toDense l = .ok c.toDense := by
+  rw [np1div_eq_np1 _ _ hfin]
+  exact divArray_ok a c l ha h
+
+/-- **err_iff, sparse operand**: shape errors are raised exactly outside `ShapeOK`; the only other
+error of the family is `zeroDiv`, raised by `÷` alone -/
+theorem err_iff_arith_sparse (op : Arith) (ip : Bool) (a b : SV) :
+    SV.arithSparse op ip a b = .error .shape ↔ ¬ ShapeOK a.size b.size := by
+  cases op <;> simp only [SV.arithSparse]
+  · rw [addSparse_error_iff]; simp
+  · rw [addSparse_error_iff]; simp
+  · rw [mulSparse_error_iff]; simp
+  · constructor
+    · intro h
+      rcases divSparse_error ip a b .shape h with h' | h'
+      · exact h'.2
+      · exact absurd h'.1 (by decide)
+    · intro hn
+      unfold SV.divSparse ShapeOK at *
+      have h1 : ¬ a.size = b.size := fun e => hn (Or.inl e)
+      have h2 : ¬ (a.size = 1 ∧ b.size ≠ 0) := fun e => hn (Or.inr (Or.inl e))
+      have h3 : ¬ b.size = 1 := fun e => hn (Or.inr (Or.inr e))
+      rw [if_neg h1, if_neg h2, if_neg h3]
+
+/-- for a non-empty operand `ShapeOK` is NumPy's broadcasting rule for two 1-d arrays -/
+theorem shapeOK_iff_numpy (f : Rat → Rat → Rat) (a b : Vec) (hb : b.length ≠ 0) :
+    ShapeOK a.length b.length ↔ ∃ r, np1 f a b = .ok r := by
+  unfold ShapeOK np1
+  by_cases h1 : a.length = b.length
+  · simp [h1]
+  · by_cases h2 : a.length = 1
+    · rw [if_neg h1, if_pos h2]
+      exact ⟨fun _ => ⟨_, rfl⟩, fun _ => Or.inr (Or.inl ⟨h2, hb⟩)⟩
+    · by_cases h3 : b.length = 1
+      · rw [if_neg h1, if_neg h2, if_pos h3]
+        exact ⟨fun _ => ⟨_, rfl⟩, fun _ => Or.inr (Or.inr h3)⟩
+      · rw [if_neg h1, if_neg h2, if_neg h3]
+        constructor
+        · rintro (h | h | h)
+          · exact absurd h h1
+          · exact absurd h.1 h2
+          · exact absurd h h3
+        · rintro ⟨r, hr⟩; cases hr
+
+/-- **err_iff** in NumPy's terms: for a non-empty operand the kernel raises a shape error exactly when
+NumPy cannot broadcast the dense images -/
+theorem err_iff_arith_sparse_numpy (op : Arith) (ip : Bool) (a b : SV) (hb : b.size ≠ 0) :
+    SV.arithSparse op ip a b = .error .shape ↔ ¬ ∃ r, np1 op.fn a.toDense b.toDense = .ok r := by
+  rw [err_iff_arith_sparse, ← shapeOK_iff_numpy op.fn a.toDense b.toDense (by simpa [SV.toDense_length] using hb)]
+  simp [SV.toDense_length]
+
+/-- the deviation at the empty operand, mirrored from `size == 1 and other_size`: NumPy broadcasts a
+length-1 array against an empty one (result empty), the kernels raise -/
+theorem len1_vs_empty_counterexample :
+    SV.arithSparse .add false ⟨1, [(0, 2)], false⟩ ⟨0, [], false⟩ = .error .shape ∧
+    np1 (Arith.fn .add) (SV.toDense ⟨1, [(0, 2)], false⟩) (SV.toDense ⟨0, [], false⟩) = .ok [] := by
+  constructor <;> decide
+
+/-- **in-place, sparse operand**: under the guard that NumPy accepts `a op= b` the in-place kernel
+computes NumPy's result and keeps the size of the target -/
+theorem dense_hom_inplace_sparse (op : Arith) (a b c : SV) (ha : a.WF) (hb : b.WF)
+    (hok : InplaceOK a.size b.size) (h : SV.arithSparse op true a b = .ok c) :
+    c.WF ∧ np1i op.fn a.toDense b.toDense = .ok c.toDense := by
+  obtain ⟨h1, h2⟩ := dense_hom_arith_sparse op true a b c ha hb h
+  refine ⟨h1, ?_⟩
+  rw [np1i_eq_np1 _ _ _ (by simpa [SV.toDense_length, InplaceOK] using hok)]; exact h2
+
+theorem dense_hom_inplace_array (op : Arith) (a c : SV) (l : Vec) (ha : a.WF)
+    (hok : InplaceOK a.size l.length) (h : SV.arithArray op a l = .ok c) :
+    c.WF ∧ np1i op.fn a.toDense l = .ok c.toDense := by
+  obtain ⟨h1, h2⟩ := dense_hom_arith_array op a c l ha h
+  refine ⟨h1, ?_⟩
+  rw [np1i_eq_np1 _ _ _ (by simpa [SV.toDense_length, InplaceOK] using hok)]; exact h2
+
+/-- **comparisons, all operand kinds**: the logical vector returned has NumPy's dense image -/
+theorem dense_hom_cmp_sparse (op : Cmp) (a b : SV) (r : SLV) (h : a.cmpSparse op b = .ok r) :
+    SLVWF r ∧ np1 op.toBin.fn a.toDense b.toDense = .ok r.toDense := cmpSparse_ok op a b r h
+
+theorem dense_hom_cmp_array (op : Cmp) (a : SV) (l : Vec) (r : SLV) (h : a.cmpArray op l = .ok r) :
+    SLVWF r ∧ np1 op.toBin.fn a.toDense l = .ok r.toDense := cmpArray_ok op a l r h
+
+theorem dense_hom_cmp_scalar (op : Cmp) (a : SV) (x : Rat) :
+    SLVWF (a.cmpScalar op x) ∧ (a.cmpScalar op x).toDense = np1s op.toBin.fn a.toDense x := cmpScalar_ok op a x
+
+/-! ## SparseLogicalVector: `&`, `|`, `^`, `+` (or), `*` (and), `~` against NumPy on boolean arrays -/
+
+/-- the boolean function behind each logical kernel family -/
+def lfn : LOp → Bool → Bool → Bool
+  | .add | .or => fun x y => x || y
+  | .mul | .and => fun x y => x && y
+  | .xor => fun x y => x != y
+  | .truediv => fun x _ => x
+
+/-- the NumPy operator on boolean arrays (as 0/1 numbers) for each family -/
+def lopBin : LOp → BinOp
+  | .add => .add | .or => .or | .mul => .mul | .and => .and | .xor => .xor | .truediv => .truediv
+
+theorem lfn_b2r (op : LOp) (hop : op ≠ .truediv) (x y : Bool) :
+    (lopBin op).fnBool (b2r x) (b2r y) = b2r (lfn op x y) := by
+  cases op <;> cases x <;> cases y <;> first | exact absurd rfl hop | decide | (simp [lopBin, BinOp.fnBool, BinOp.fn, b2r, lfn])
+
+theorem slv_toDense_of_mem (c : SLV) (n : Nat) (g : Nat → Bool) (hs : c.size = n) (hm : ∀ i, i < n → c.mem i = g i) :
+    c.toDense = vecOf n (fun i => b2r (g i)) := by
+  unfold SLV.toDense
+  rw [hs]
+  exact vecOf_congr (fun i hi => by rw [hm i hi])
+
+theorem slv_toDense_eq (a : SLV) : a.toDense = vecOf a.size (fun i => b2r (a.mem i)) := rfl
+
+theorem mem_false_of_ge {a : SLV} (ha : SLVWF a) (i : Nat) (hi : a.size ≤ i) : a.mem i = false := by
+  unfold SLV.mem
+  by_contra h
+  have : i ∈ a.set := by simpa using h
+  have := ha.2 i this
+  omega
+
+/-- a well-formed logical vector of size 1 that does not contain 0 is empty -/
+theorem slv_mem_of_size1 {a : SLV} (ha : SLVWF a) (hs : a.size = 1) (h0 : a.has0 = false) (i : Nat) : a.mem i = false := by
+  cases i with
+  | zero => exact h0
+  | succ k => exact mem_false_of_ge ha _ (by omega)
+
+theorem slv_nil_toDense (n : Nat) : SLV.toDense ⟨n, []⟩ = vecOf n (fun _ => 0) := by
+  unfold SLV.toDense
+  exact vecOf_congr (fun i _ => by simp [SLV.mem, b2r])
+
+/-- **dense_hom for the logical kernels with a sparse operand** (`a & b`, `a | b`, `a ^ b`, `a + b`,
+`a * b` and their in-place forms where NumPy accepts them): NumPy's boolean operator on the dense
+images -/
+theorem dense_hom_logical_sparse (op : LOp) (hop : op ≠ .truediv) (a b c : SLV) (ha : SLVWF a) (hb : SLVWF b)
+    (h : SLV.iopSparse op a b = .ok c) :
+    SLVWF c ∧ np1 (lopBin op).fnBool a.toDense b.toDense = .ok c.toDense := by
+  refine ⟨slv_iopSparse_wf op ha h, ?_⟩
+  rw [slv_toDense_eq a, slv_toDense_eq b, np1_vecOf]
+  have hf : ∀ x y, (lopBin op).fnBool (b2r x) (b2r y) = b2r (lfn op x y) := lfn_b2r op hop
+  unfold SLV.iopSparse at h
+  split at h
+  · rename_i h1
+    rw [if_pos h1]
+    cases op <;> simp only [Except.ok.injEq] at h <;> first | exact absurd rfl hop | skip
+    all_goals
+      subst h
+      simp only [Except.ok.injEq]
+      symm
+      rw [ofPred_toDense]
+      exact vecOf_congr (fun i _ => (hf _ _).symm)
+  · rename_i h1
+    rw [if_neg h1]
+    split at h
+    · rename_i h2
+      rw [if_pos h2.1]
+      cases op <;> simp only [Except.ok.injEq] at h <;> first | exact absurd rfl hop | skip
+      all_goals
+        subst h
+        simp only [Except.ok.injEq]
+        symm
+        by_cases h0 : a.has0 = true
+        · have hm0 : a.mem 0 = true := h0
+          simp only [h0, ↓reduceIte]
+          rw [ofPred_toDense]
+          exact vecOf_congr (fun i _ => by rw [hf, hm0]; simp [lfn])
+        · have hm0 : a.mem 0 = false := by simpa [SLV.has0] using h0
+          simp only [h0, Bool.false_eq_true, ↓reduceIte]
+          first
+            | (rw [ofPred_toDense]; exact vecOf_congr (fun i _ => by rw [hf, hm0]; simp [lfn]))
+            | (rw [slv_nil_toDense]; exact vecOf_congr (fun i _ => by rw [hf, hm0]; simp [lfn, b2r]))
+    · rename_i h2
+      split at h
+      · rename_i h3
+        have ha1 : ¬ a.size = 1 := by
+          intro hc; apply h2; exact ⟨hc, by omega⟩
+        rw [if_neg ha1, if_pos h3]
+        cases op <;> simp only [Except.ok.injEq] at h <;> first | exact absurd rfl hop | skip
+        all_goals
+          subst h
+          simp only [Except.ok.injEq]
+          symm
+          by_cases h0 : b.has0 = true
+          · have hm0 : b.mem 0 = true := h0
+            simp only [h0, ↓reduceIte]
+            first
+              | (rw [ofPred_toDense]; exact vecOf_congr (fun i _ => by rw [hf, hm0]; simp [lfn]))
+              | (rw [slv_toDense_eq]; exact vecOf_congr (fun i _ => by rw [hf, hm0]; simp [lfn]))
+          · have hm0 : b.mem 0 = false := by simpa [SLV.has0] using h0
+            simp only [h0, Bool.false_eq_true, ↓reduceIte]
+            first
+              | (rw [slv_nil_toDense]; exact vecOf_congr (fun i _ => by rw [hf, hm0]; simp [lfn, b2r]))
+              | (rw [slv_toDense_eq]; exact vecOf_congr (fun i _ => by rw [hf, hm0]; simp [lfn]))
+      · cases h
+
+/-- `~a` is NumPy's `~` on the boolean image -/
+theorem dense_hom_invert (a : SLV) : SLVWF a.invert ∧ a.invert.toDense = a.toDense.map (fun x => b2r (x == 0)) := by
+  refine ⟨slv_invert_wf a, ?_⟩
+  unfold SLV.invert
+  rw [ofPred_toDense, slv_toDense_eq, map_vecOf]
+  apply vecOf_congr
+  intro i _
+  cases a.mem i <;> decide
+
+/-! ## reductions of a SparseVector: `sum`, `any`, `all`, `mean` against NumPy -/
+
+theorem foldl_add_eq (l : List Rat) (x : Rat) : l.foldl (· + ·) x = x + l.sum := by
+  induction l generalizing x with
+  | nil => simp
+  | cons a l ih => simp only [List.foldl_cons, List.sum_cons]; rw [ih]; ring
+
+theorem vsum_eq_sum (l : Vec) : vsum l = l.sum := by
+  unfold vsum; rw [foldl_add_eq]; ring
+
+theorem sum_vecOf_ite (n k : Nat) (v : Rat) (g : Nat → Rat) :
+    (vecOf n (fun i => if i = k then v else g i)).sum = (if k < n then v - g k else 0) + (vecOf n g).sum := by
+  unfold vecOf
+  induction n with
+  | zero => simp
+  | succ n ih =>
+    simp only [List.range_succ, List.map_append, List.sum_append, List.map_cons, List.map_nil, List.sum_cons,
+      List.sum_nil, add_zero]
+    rw [ih]
+    by_cases h1 : k < n
+    · have h2 : k < n + 1 := by omega
+      have h3 : n ≠ k := by omega
+      simp only [h1, h2, h3, ↓reduceIte]; ring
+    · by_cases h4 : n = k
+      · subst h4
+        have h5 : n < n + 1 := by omega
+        simp only [h1, h5, ↓reduceIte]; ring
+      · have h2 : ¬ k < n + 1 := by omega
+        simp only [h1, h2, h4, ↓reduceIte]; ring
+
+/-- the sum of the stored values is the sum of the dense image -/
+theorem dct_sum_eq (n : Nat) (d : Dct) (hd : Dct.WF n d) : d.vals.sum = (vecOf n (Dct.get d)).sum := by
+  induction d with
+  | nil =>
+    have : vecOf n (Dct.get []) = vecOf n (fun _ => 0) := vecOf_congr (fun i _ => Dct.get_nil i)
+    rw [this]
+    unfold vecOf Dct.vals
+    have hz : ∀ l : List Nat, (l.map (fun _ => (0 : Rat))).sum = 0 := by
+      intro l; induction l with
+      | nil => rfl
+      | cons x l ih => simp [ih]
+    rw [hz]; rfl
+  | cons p d ih =>
+    obtain ⟨k, v⟩ := p
+    have hd' : Dct.WF n d := ⟨(List.nodup_cons.mp hd.1).2, fun q hq => hd.2 q (List.mem_cons_of_mem _ hq)⟩
+    have hk : k < n := (hd.2 (k, v) List.mem_cons_self).1
+    have hgk : Dct.get d k = 0 := by
+      apply Dct.get_eq_zero_of_not_has
+      by_contra hc
+      rw [Bool.not_eq_false] at hc
+      exact (List.nodup_cons.mp hd.1).1 ((Dct.has_iff_mem_keys d k).mp hc)
+    have : vecOf n (Dct.get ((k, v) :: d)) = vecOf n (fun i => if i = k then v else Dct.get d i) :=
+      vecOf_congr (fun i _ => Dct.get_cons k v d i)
+    rw [this, sum_vecOf_ite, ← ih hd']
+    simp only [Dct.vals, List.map_cons, List.sum_cons, hk, ↓reduceIte, hgk]
+    ring
+
+/-- **dense_hom for `sum`** -/
+theorem dense_hom_sum (a : SV) (ha : a.WF) : redVec .sum a.toDense = .ok a.sum := by
+  simp only [redVec, SV.sum]
+  rw [vsum_eq_sum, foldl_add_eq, zero_add, SV.toDense_eq]
+  exact congrArg Except.ok (dct_sum_eq a.size a.dct ha).symm
+
+/-- **dense_hom for `any`**: some entry is stored iff some element of the dense image is non-zero -/
+theorem dense_hom_any (a : SV) (ha : a.WF) : redVec .any a.toDense = .ok (b2r a.any) := by
+  simp only [redVec, SV.any]
+  congr 2
+  rw [SV.toDense_eq]
+  unfold vecOf
+  rw [Bool.eq_iff_iff]
+  simp only [List.any_map, List.any_eq_true, List.mem_range, Function.comp, bne_iff_ne, Bool.not_eq_true',
+    List.isEmpty_eq_false_iff]
+  constructor
+  · rintro ⟨i, _, hne⟩
+    intro he
+    rw [SV.get_def, he] at hne
+    exact hne (Dct.get_nil i)
+  · intro hne
+    match hd : a.dct with
+    | [] => exact absurd hd hne
+    | p :: r =>
+      have hp : p ∈ a.dct := by rw [hd]; exact List.mem_cons_self
+      refine ⟨p.1, (ha.2 p hp).1, ?_⟩
+      rw [SV.get_def, Dct.get_mem _ ha.1 p hp]; exact (ha.2 p hp).2
+
+theorem nodup_subset_length_le : ∀ (l m : List Nat), l.Nodup → (∀ x ∈ l, x ∈ m) → l.length ≤ m.length := by
+  intro l
+  induction l with
+  | nil => intro m _ _; simp
+  | cons a l ih =>
+    intro m hnd hsub
+    have ha : a ∈ m := hsub a List.mem_cons_self
+    have hl : ∀ x ∈ l, x ∈ m.erase a := by
+      intro x hx
+      have hxa : x ≠ a := by intro e; subst e; exact (List.nodup_cons.mp hnd).1 hx
+      exact (List.mem_erase_of_ne hxa).mpr (hsub x (List.mem_cons_of_mem _ hx))
+    have := ih (m.erase a) (List.nodup_cons.mp hnd).2 hl
+    rw [List.length_erase_of_mem ha] at this
+    have hm : 0 < m.length := List.length_pos_of_mem ha
+    simp only [List.length_cons]; omega
+
+/-- a well-formed dict has as many entries as its size iff every position is stored -/
+theorem length_eq_size_iff (a : SV) (ha : a.WF) : a.dct.length = a.size ↔ ∀ i, i < a.size → a.get i ≠ 0 := by
+  have hkeys : ∀ x ∈ a.dct.map Prod.fst, x ∈ List.range a.size := by
+    intro x hx
+    obtain ⟨p, hp, e⟩ := List.mem_map.mp hx
+    subst e; exact List.mem_range.mpr (ha.2 p hp).1
+  constructor
+  · intro hlen i hi
+    by_contra hz
+    -- then the keys fit into `range size` without `i`: one too few places
+    have hsub : ∀ x ∈ a.dct.map Prod.fst, x ∈ (List.range a.size).erase i := by
+      intro x hx
+      have hxi : x ≠ i := by
+        intro e; subst e
+        exact ((SV.has_iff ha x).mp ((Dct.has_iff_mem_keys _ x).mpr hx)) hz
+      exact (List.mem_erase_of_ne hxi).mpr (hkeys x hx)
+    have := nodup_subset_length_le _ _ ha.1 hsub
+    rw [List.length_erase_of_mem (List.mem_range.mpr hi)] at this
+    simp only [List.length_map, List.length_range] at this
+    omega
+  · intro hall
+    have h1 := nodup_subset_length_le _ _ ha.1 hkeys
+    have h2 : ∀ x ∈ List.range a.size, x ∈ a.dct.map Prod.fst := by
+      intro x hx
+      exact (Dct.has_iff_mem_keys _ x).mp ((SV.has_iff ha x).mpr (hall x (List.mem_range.mp hx)))
+    have h3 := nodup_subset_length_le _ _ List.nodup_range h2
+    simp only [List.length_map, List.length_range] at h1 h3
+    omega
+
+/-- **dense_hom for `all`** (`len(dct) == size`, which is right because of the invariant) -/
+theorem dense_hom_all (a : SV) (ha : a.WF) : redVec .all a.toDense = .ok (b2r a.all) := by
+  simp only [redVec, SV.all]
+  congr 2
+  rw [SV.toDense_eq]
+  unfold vecOf
+  rw [Bool.eq_iff_iff]
+  simp only [List.all_map, List.all_eq_true, List.mem_range, Function.comp, bne_iff_ne, beq_iff_eq]
+  rw [length_eq_size_iff a ha]
+
+/-- **dense_hom for `mean`** (non-empty vector) -/
+theorem dense_hom_mean (a : SV) (ha : a.WF) (hn : a.size ≠ 0) : redVec .mean a.toDense = .ok a.mean := by
+  have hs := dense_hom_sum a ha
+  simp only [redVec, Except.ok.injEq] at hs
+  simp only [redVec, SV.toDense_length, hn, ↓reduceIte, Except.ok.injEq]
+  unfold SV.mean
+  rw [hs]
+  split
+  · rename_i he
+    have : a.sum = 0 := by
+      unfold SV.sum
+      have : a.dct = [] := by simpa using he
+      rw [this]; rfl
+    rw [this, zero_div]
+  · rfl
+
+/-! ## element / fancy / boolean get and set against NumPy indexing -/
+
+theorem toDense_getD (a : SV) (i : Nat) (hi : i < a.size) : a.toDense.getD i 0 = a.get i := vecOf_getD _ _ i hi
+
+/-- `a[i]` for an index inside the size -/
+theorem dense_hom_getitem_int (a : SV) (i : Nat) (hi : i < a.size) :
+    npGet1 a.toDense i = .ok (a.get i) ∧ a.getItem (.int i) = .scalar (a.get i) := by
+  refine ⟨?_, rfl⟩
+  unfold npGet1
+  rw [SV.toDense_length, if_pos hi, toDense_getD a i hi]
+
+/-- `a[[i, j, …]]` for indices inside the size (boolean masks are turned into index lists first) -/
+theorem dense_hom_getitem_fancy (a : SV) (l : List Nat) (hl : ∀ i ∈ l, i < a.size) :
+    npFancy1 a.toDense l = .ok (l.map a.get) ∧ a.getItem (.fancy l) = .dense (l.map a.get) := by
+  refine ⟨?_, rfl⟩
+  unfold npFancy1
+  induction l with
+  | nil => rfl
+  | cons i l ih =>
+    rw [List.mapM_cons, (dense_hom_getitem_int a i (hl i List.mem_cons_self)).1,
+      ih (fun j hj => hl j (List.mem_cons_of_mem _ hj))]
+    rfl
+
+theorem vecOf_set (n : Nat) (g : Nat → Rat) (i : Nat) (x : Rat) :
+    (vecOf n g).set i x = vecOf n (fun j => if j = i then x else g j) := by
+  apply List.ext_getElem
+  · simp [vecOf_length]
+  · intro j h1 h2
+    simp only [vecOf_length, List.length_set] at h1 h2
+    simp only [vecOf, List.getElem_set, List.getElem_map, List.getElem_range]
+    by_cases e : i = j
+    · subst e; simp
+    · have : ¬ j = i := fun h => e h.symm
+      simp [e, this]
+
+/-- storing one element (or deleting it when the value is zero) is NumPy's `a[i] = x` -/
+theorem toDense_setNZ (a : SV) (i : Nat) (x : Rat) :
+    SV.toDense { a with dct := a.dct.setNZ i x } = setAt a.toDense i x := by
+  unfold setAt
+  rw [SV.toDense_eq a, vecOf_set]
+  apply SV.toDense_of_get _ _ _ rfl
+  intro j _
+  rw [SV.get_def]; dsimp only
+  rw [Dct.get_setNZ]; rfl
+
+/-- **dense_hom for `a[i] = x`** (index inside the size, target writable) -/
+theorem dense_hom_setitem_int (a c : SV) (i : Nat) (x : Rat) (ha : a.WF) (hi : i < a.size)
+    (h : a.setItem (.int i) (.scalar x) = .ok c) :
+    c.WF ∧ c.toDense = setAt a.toDense i x ∧ a.readOnly = false := by
+  unfold SV.setItem at h
+  split at h
+  · cases h
+  · rename_i hro
+    simp only [Except.ok.injEq] at h
+    subst h
+    exact ⟨Dct.wf_setNZ ha _ _ hi, toDense_setNZ a i x, by simpa using hro⟩
+
+theorem toDense_foldl_setNZ (a : SV) (l : List (Nat × Rat)) :
+    SV.toDense { a with dct := l.foldl (fun acc p => Dct.setNZ acc p.1 p.2) a.dct } =
+      l.foldl (fun acc p => setAt acc p.1 p.2) a.toDense := by
+  induction l generalizing a with
+  | nil => rfl
+  | cons p rest ih =>
+    simp only [List.foldl_cons]
+    have := ih { a with dct := a.dct.setNZ p.1 p.2 }
+    dsimp only at this
+    rw [this, toDense_setNZ]
+
+/-- **dense_hom for `a[[i, j, …]] = [x, y, …]`** (equal lengths, indices inside the size): NumPy's
+element-wise assignment, in order -/
+theorem dense_hom_setitem_fancy (a c : SV) (idx : List Nat) (vals : Vec) (ha : a.WF)
+    (hidx : ∀ i ∈ idx, i < a.size) (hlen : vals.length = idx.length)
+    (h : a.setItem (.fancy idx) (.seq vals) = .ok c) :
+    c.WF ∧ npSetMany a.toDense idx vals false = .ok c.toDense := by
+  refine ⟨sv_setItem_wf ha (.fancy idx) (.seq vals) false hidx (by intro h; cases h) (by intro b hb; cases hb) h, ?_⟩
+  unfold SV.setItem at h
+  split at h
+  · cases h
+  · simp only [SV.setMany, SV.Val.dense, Except.map, Except.ok.injEq] at h
+    subst h
+    unfold npSetMany
+    have hno : (idx.any fun i => decide (a.toDense.length ≤ i)) = false := by
+      rw [List.any_eq_false]
+      intro i hi
+      have := hidx i hi
+      simp [SV.toDense_length]; omega
+    simp only [hno, Bool.false_eq_true, ↓reduceIte, hlen, Except.ok.injEq]
+    exact (toDense_foldl_setNZ a (List.zip idx vals)).symm
+
+/-- **dense_hom for `a[[i, j, …]] = x`** (one value for all selected positions) -/
+theorem dense_hom_setitem_fancy_scalar (a c : SV) (idx : List Nat) (x : Rat) (ha : a.WF)
+    (hidx : ∀ i ∈ idx, i < a.size) (h : a.setItem (.fancy idx) (.scalar x) = .ok c) :
+    c.WF ∧ npSetMany a.toDense idx [x] true = .ok c.toDense := by
+  refine ⟨sv_setItem_wf ha (.fancy idx) (.scalar x) false hidx (by intro h; cases h) (by intro b hb; cases hb) h, ?_⟩
+  unfold SV.setItem at h
+  split at h
+  · cases h
+  · simp only [SV.setMany, Except.map, Except.ok.injEq] at h
+    subst h
+    unfold npSetMany
+    have hno : (idx.any fun i => decide (a.toDense.length ≤ i)) = false := by
+      rw [List.any_eq_false]
+      intro i hi
+      have := hidx i hi
+      simp [SV.toDense_length]; omega
+    simp only [hno, Bool.false_eq_true, ↓reduceIte, Except.ok.injEq, List.getD_cons_zero]
+    have := toDense_foldl_setNZ a (idx.map (fun i => (i, x)))
+    rw [List.foldl_map, List.foldl_map] at this
+    exact this.symm
+
+/-- **read-only `err_iff` for `__setitem__`**: the assignment is refused with `readOnly` exactly when
+the flag is set (whatever the index and the value) -/
+theorem err_iff_setitem_readonly (a : SV) (idx : Idx) (v : SV.Val) (same : Bool) :
+    a.setItem idx v same = .error .readOnly ↔ a.readOnly = true := by
+  constructor
+  · intro h
+    by_contra hn
+    unfold SV.setItem at h
+    rw [if_neg hn] at h
+    split at h
+    · split at h <;> cases h
+    · cases hm : SV.setMany a.dct _ v <;> rw [hm] at h <;> first | (cases h; done) | skip
+      rename_i e
+      unfold SV.setMany at hm
+      split at hm <;> cases hm
+      cases h
+    · cases hm : SV.setMany a.dct _ v <;> rw [hm] at h <;> first | (cases h; done) | skip
+      rename_i e
+      unfold SV.setMany at hm
+      split at hm <;> cases hm
+      cases h
+    · split at h
+      · split at h
+        · cases h
+        · split at h <;> cases h
+      · cases hm : SV.setMany a.dct _ v <;> rw [hm] at h <;> first | (cases h; done) | skip
+        rename_i e
+        unfold SV.setMany at hm
+        split at hm <;> cases hm
+        cases h
+  · intro h
+    unfold SV.setItem
+    rw [if_pos h]
+
+/-! ## `max` / `min`: the extremum of the stored values, corrected by the implicit zeros -/
+
+def vmaxStep (acc : Option Rat) (x : Rat) : Option Rat :=
+  match acc with | none => some x | some m => some (if x > m then x else m)
+
+theorem vmax_eq_foldl (l : Vec) : vmax l = l.foldl vmaxStep none := by
+  unfold vmax
+  congr 1
+
+/-- `vmax` returns an upper bound that is attained -/
+theorem vmax_foldl_spec (l : Vec) : ∀ (acc : Option Rat),
+    match l.foldl vmaxStep acc with
+    | none => acc = none ∧ l = []
+    | some m => (m ∈ l ∨ acc = some m) ∧ (∀ x ∈ l, x ≤ m) ∧ (∀ a, acc = some a → a ≤ m) := by
+  induction l with
+  | nil =>
+    intro acc
+    cases acc with
+    | none => simp
+    | some a => simp
+  | cons y l ih =>
+    intro acc
+    simp only [List.foldl_cons]
+    have := ih (vmaxStep acc y)
+    revert this
+    cases hres : List.foldl vmaxStep (vmaxStep acc y) l with
+    | none =>
+      intro this
+      cases acc <;> simp [vmaxStep] at this
+    | some m =>
+      intro this
+      obtain ⟨h1, h2, h3⟩ := this
+      cases acc with
+      | none =>
+        simp only [vmaxStep] at h1 h3
+        refine ⟨?_, ?_, by simp⟩
+        · rcases h1 with h | h
+          · exact Or.inl (List.mem_cons_of_mem _ h)
+          · simp only [Option.some.injEq] at h; subst h; exact Or.inl List.mem_cons_self
+        · intro x hx
+          rcases List.mem_cons.mp hx with e | e
+          · subst e; exact h3 _ rfl
+          · exact h2 x e
+      | some a =>
+        simp only [vmaxStep] at h1 h3
+        have hmax := h3 _ rfl
+        refine ⟨?_, ?_, ?_⟩
+        · rcases h1 with h | h
+          · exact Or.inl (List.mem_cons_of_mem _ h)
+          · simp only [Option.some.injEq] at h
+            by_cases hya : y > a
+            · rw [if_pos hya] at h; subst h; exact Or.inl List.mem_cons_self
+            · rw [if_neg hya] at h; subst h; exact Or.inr rfl
+        · intro x hx
+          rcases List.mem_cons.mp hx with e | e
+          · subst e
+            by_cases hya : x > a
+            · rw [if_pos hya] at hmax; exact hmax
+            · rw [if_neg hya] at hmax; exact le_trans (not_lt.mp hya) hmax
+          · exact h2 x e
+        · intro a' ha'
+          simp only [Option.some.injEq] at ha'; subst ha'
+          by_cases hya : y > a
+          · rw [if_pos hya] at hmax; exact le_trans (le_of_lt hya) hmax
+          · rw [if_neg hya] at hmax; exact hmax
+
+theorem vmax_none_iff (l : Vec) : vmax l = none ↔ l = [] := by
+  rw [vmax_eq_foldl]
+  have := vmax_foldl_spec l none
+  constructor
+  · intro h; rw [h] at this; exact this.2
+  · intro h; subst h; rfl
+
+theorem vmax_some (l : Vec) (m : Rat) (h : vmax l = some m) : m ∈ l ∧ ∀ x ∈ l, x ≤ m := by
+  rw [vmax_eq_foldl] at h
+  have := vmax_foldl_spec l none
+  rw [h] at this
+  simp only at this
+  exact ⟨this.1.resolve_right (by simp), this.2.1⟩
+
+/-- an attained upper bound is what `vmax` returns -/
+theorem vmax_eq_of (l : Vec) (m : Rat) (hm : m ∈ l) (hub : ∀ x ∈ l, x ≤ m) : vmax l = some m := by
+  cases h : vmax l with
+  | none => rw [(vmax_none_iff l).mp h] at hm; cases hm
+  | some m' =>
+    obtain ⟨h1, h2⟩ := vmax_some l m' h
+    congr 1
+    exact le_antisymm (hub m' h1) (h2 m hm)
+
+theorem mem_toDense_iff (a : SV) (x : Rat) : x ∈ a.toDense ↔ ∃ i, i < a.size ∧ a.get i = x := by
+  rw [SV.toDense_eq]
+  unfold vecOf
+  simp only [List.mem_map, List.mem_range]
+
+theorem mem_vals_iff (a : SV) (ha : a.WF) (x : Rat) : x ∈ a.dct.vals ↔ ∃ i, i < a.size ∧ a.get i = x ∧ x ≠ 0 := by
+  unfold Dct.vals
+  simp only [List.mem_map]
+  constructor
+  · rintro ⟨p, hp, e⟩
+    subst e
+    exact ⟨p.1, (ha.2 p hp).1, by rw [SV.get_def, Dct.get_mem _ ha.1 p hp], (ha.2 p hp).2⟩
+  · rintro ⟨i, _, hg, hne⟩
+    subst hg
+    exact ⟨(i, a.get i), Dct.mem_of_has _ _ ((SV.has_iff ha i).mpr hne), rfl⟩
+
+/-- **dense_hom for `max`** (non-empty vector): `max(dct.values())`, replaced by 0 when it is negative
+and some position is not stored, is the maximum of the dense image -/
+theorem dense_hom_max (a : SV) (ha : a.WF) (hn : a.size ≠ 0) : ∃ m, a.max = .ok m ∧ redVec .max a.toDense = .ok m := by
+  simp only [redVec, SV.max]
+  -- a zero is present in the dense image iff not every position is stored
+  have hzero : a.dct.length < a.size ↔ ∃ i, i < a.size ∧ a.get i = 0 := by
+    have hle : a.dct.length ≤ a.size := by
+      have := nodup_subset_length_le (a.dct.map Prod.fst) (List.range a.size) ha.1 (by
+        intro x hx
+        obtain ⟨p, hp, e⟩ := List.mem_map.mp hx
+        subst e; exact List.mem_range.mpr (ha.2 p hp).1)
+      simpa using this
+    constructor
+    · intro hlt
+      by_contra hc
+      have : a.dct.length = a.size := (length_eq_size_iff a ha).mpr (fun i hi hz => hc ⟨i, hi, hz⟩)
+      omega
+    · rintro ⟨i, hi, hz⟩
+      have hne : a.dct.length ≠ a.size := fun e => (length_eq_size_iff a ha).mp e i hi hz
+      omega
+  cases hv : vmax a.dct.vals with
+  | none =>
+    -- nothing stored: the dense image is all zeros
+    have hnil : a.dct.vals = [] := (vmax_none_iff _).mp hv
+    have hall : ∀ i, i < a.size → a.get i = 0 := by
+      intro i _
+      by_contra hne
+      have : a.get i ∈ a.dct.vals := (mem_vals_iff a ha _).mpr ⟨i, by assumption, rfl, hne⟩
+      rw [hnil] at this; cases this
+    refine ⟨0, by simp [hn], ?_⟩
+    have : vmax a.toDense = some 0 := by
+      apply vmax_eq_of
+      · exact (mem_toDense_iff a 0).mpr ⟨0, by omega, hall 0 (by omega)⟩
+      · intro x hx
+        obtain ⟨i, hi, e⟩ := (mem_toDense_iff a x).mp hx
+        rw [← e, hall i hi]
+    rw [this]
+  | some m =>
+    obtain ⟨hm1, hm2⟩ := vmax_some _ m hv
+    obtain ⟨i0, hi0, hgi0, hmne⟩ := (mem_vals_iff a ha m).mp hm1
+    by_cases hc : m < 0 ∧ a.dct.length < a.size
+    · -- all stored values are negative and a zero is present
+      refine ⟨0, by simp [hc], ?_⟩
+      obtain ⟨j, hj, hzj⟩ := hzero.mp hc.2
+      have : vmax a.toDense = some 0 := by
+        apply vmax_eq_of
+        · exact (mem_toDense_iff a 0).mpr ⟨j, hj, hzj⟩
+        · intro x hx
+          obtain ⟨i, hi, e⟩ := (mem_toDense_iff a x).mp hx
+          by_cases hxz : x = 0
+          · rw [hxz]
+          · exact le_of_lt (lt_of_le_of_lt (hm2 x ((mem_vals_iff a ha x).mpr ⟨i, hi, e, hxz⟩)) hc.1)
+      rw [this]
+    · refine ⟨m, by simp [hc], ?_⟩
+      have : vmax a.toDense = some m := by
+        apply vmax_eq_of
+        · exact (mem_toDense_iff a m).mpr ⟨i0, hi0, hgi0⟩
+        · intro x hx
+          obtain ⟨i, hi, e⟩ := (mem_toDense_iff a x).mp hx
+          by_cases hxz : x = 0
+          · -- a zero is present: then `m ≥ 0` by the guard
+            rw [hxz]
+            have hlt : a.dct.length < a.size := hzero.mpr ⟨i, hi, by rw [e, hxz]⟩
+            by_contra hneg
+            exact hc ⟨not_le.mp hneg, hlt⟩
+          · exact hm2 x ((mem_vals_iff a ha x).mpr ⟨i, hi, e, hxz⟩)
+      rw [this]
+
+def vminStep (acc : Option Rat) (x : Rat) : Option Rat :=
+  match acc with | none => some x | some m => some (if x < m then x else m)
+
+theorem vmin_eq_foldl (l : Vec) : vmin l = l.foldl vminStep none := by
+  unfold vmin
+  congr 1
+
+/-- `vmin` returns an lower bound that is attained -/
+theorem vmin_foldl_spec (l : Vec) : ∀ (acc : Option Rat),
+    match l.foldl vminStep acc with
+    | none => acc = none ∧ l = []
+    | some m => (m ∈ l ∨ acc = some m) ∧ (∀ x ∈ l, m ≤ x) ∧ (∀ a, acc = some a → m ≤ a) := by
+  induction l with
+  | nil =>
+    intro acc
+    cases acc with
+    | none => simp
+    | some a => simp
+  | cons y l ih =>
+    intro acc
+    simp only [List.foldl_cons]
+    have := ih (vminStep acc y)
+    revert this
+    cases hres : List.foldl vminStep (vminStep acc y) l with
+    | none =>
+      intro this
+      cases acc <;> simp [vminStep] at this
+    | some m =>
+      intro this
+      obtain ⟨h1, h2, h3⟩ := this
+      cases acc with
+      | none =>
+        simp only [vminStep] at h1 h3
+        refine ⟨?_, ?_, by simp⟩
+        · rcases h1 with h | h
+          · exact Or.inl (List.mem_cons_of_mem _ h)
+          · simp only [Option.some.injEq] at h; subst h; exact Or.inl List.mem_cons_self
+        · intro x hx
+          rcases List.mem_cons.mp hx with e | e
+          · subst e; exact h3 _ rfl
+          · exact h2 x e
+      | some a =>
+        simp only [vminStep] at h1 h3
+        have hmax := h3 _ rfl
+        refine ⟨?_, ?_, ?_⟩
+        · rcases h1 with h | h
+          · exact Or.inl (List.mem_cons_of_mem _ h)
+          · simp only [Option.some.injEq] at h
+            by_cases hya : y < a
+            · rw [if_pos hya] at h; subst h; exact Or.inl List.mem_cons_self
+            · rw [if_neg hya] at h; subst h; exact Or.inr rfl
+        · intro x hx
+          rcases List.mem_cons.mp hx with e | e
+          · subst e
+            by_cases hya : x < a
+            · rw [if_pos hya] at hmax; exact hmax
+            · rw [if_neg hya] at hmax; exact le_trans hmax (not_lt.mp hya)
+          · exact h2 x e
+        · intro a' ha'
+          simp only [Option.some.injEq] at ha'; subst ha'
+          by_cases hya : y < a
+          · rw [if_pos hya] at hmax; exact le_trans hmax (le_of_lt hya)
+          · rw [if_neg hya] at hmax; exact hmax
+
+theorem vmin_none_iff (l : Vec) : vmin l = none ↔ l = [] := by
+  rw [vmin_eq_foldl]
+  have := vmin_foldl_spec l none
+  constructor
+  · intro h; rw [h] at this; exact this.2
+  · intro h; subst h; rfl
+
+theorem vmin_some (l : Vec) (m : Rat) (h : vmin l = some m) : m ∈ l ∧ ∀ x ∈ l, m ≤ x := by
+  rw [vmin_eq_foldl] at h
+  have := vmin_foldl_spec l none
+  rw [h] at this
+  simp only at this
+  exact ⟨this.1.resolve_right (by simp), this.2.1⟩
+
+/-- an attained lower bound is what `vmin` returns -/
+theorem vmin_eq_of (l : Vec) (m : Rat) (hm : m ∈ l) (hub : ∀ x ∈ l, m ≤ x) : vmin l = some m := by
+  cases h : vmin l with
+  | none => rw [(vmin_none_iff l).mp h] at hm; cases hm
+  | some m' =>
+    obtain ⟨h1, h2⟩ := vmin_some l m' h
+    congr 1
+    exact le_antisymm (h2 m hm) (hub m' h1)
+
+
+/-- **dense_hom for `min`** (non-empty vector): `min(dct.values())`, replaced by 0 when it is positive
+and some position is not stored, is the minimum of the dense image -/
+theorem dense_hom_min (a : SV) (ha : a.WF) (hn : a.size ≠ 0) : ∃ m, a.min = .ok m ∧ redVec .min a.toDense = .ok m := by
+  simp only [redVec, SV.min]
+  -- a zero is present in the dense image iff not every position is stored
+  have hzero : a.dct.length < a.size ↔ ∃ i, i < a.size ∧ a.get i = 0 := by
+    have hle : a.dct.length ≤ a.size := by
+      have := nodup_subset_length_le (a.dct.map Prod.fst) (List.range a.size) ha.1 (by
+        intro x hx
+        obtain ⟨p, hp, e⟩ := List.mem_map.mp hx
+        subst e; exact List.mem_range.mpr (ha.2 p hp).1)
+      simpa using this
+    constructor
+    · intro hlt
+      by_contra hc
+      have : a.dct.length = a.size := (length_eq_size_iff a ha).mpr (fun i hi hz => hc ⟨i, hi, hz⟩)
+      omega
+    · rintro ⟨i, hi, hz⟩
+      have hne : a.dct.length ≠ a.size := fun e => (length_eq_size_iff a ha).mp e i hi hz
+      omega
+  cases hv : vmin a.dct.vals with
+  | none =>
+    -- nothing stored: the dense image is all zeros
+    have hnil : a.dct.vals = [] := (vmin_none_iff _).mp hv
+    have hall : ∀ i, i < a.size → a.get i = 0 := by
+      intro i _
+      by_contra hne
+      have : a.get i ∈ a.dct.vals := (mem_vals_iff a ha _).mpr ⟨i, by assumption, rfl, hne⟩
+      rw [hnil] at this; cases this
+    refine ⟨0, by simp [hn], ?_⟩
+    have : vmin a.toDense = some 0 := by
+      apply vmin_eq_of
+      · exact (mem_toDense_iff a 0).mpr ⟨0, by omega, hall 0 (by omega)⟩
+      · intro x hx
+        obtain ⟨i, hi, e⟩ := (mem_toDense_iff a x).mp hx
+        rw [← e, hall i hi]
+    rw [this]
+  | some m =>
+    obtain ⟨hm1, hm2⟩ := vmin_some _ m hv
+    obtain ⟨i0, hi0, hgi0, hmne⟩ := (mem_vals_iff a ha m).mp hm1
+    by_cases hc : m > 0 ∧ a.dct.length < a.size
+    · -- all stored values are positive and a zero is present
+      refine ⟨0, by simp [hc], ?_⟩
+      obtain ⟨j, hj, hzj⟩ := hzero.mp hc.2
+      have : vmin a.toDense = some 0 := by
+        apply vmin_eq_of
+        · exact (mem_toDense_iff a 0).mpr ⟨j, hj, hzj⟩
+        · intro x hx
+          obtain ⟨i, hi, e⟩ := (mem_toDense_iff a x).mp hx
+          by_cases hxz : x = 0
+          · rw [hxz]
+          · exact le_of_lt (lt_of_lt_of_le hc.1 (hm2 x ((mem_vals_iff a ha x).mpr ⟨i, hi, e, hxz⟩)))
+      rw [this]
+    · refine ⟨m, by simp [hc], ?_⟩
+      have : vmin a.toDense = some m := by
+        apply vmin_eq_of
+        · exact (mem_toDense_iff a m).mpr ⟨i0, hi0, hgi0⟩
+        · intro x hx
+          obtain ⟨i, hi, e⟩ := (mem_toDense_iff a x).mp hx
+          by_cases hxz : x = 0
+          · -- a zero is present: then `m ≥ 0` by the guard
+            rw [hxz]
+            have hlt : a.dct.length < a.size := hzero.mpr ⟨i, hi, by rw [e, hxz]⟩
+            by_contra hneg
+            exact hc ⟨not_le.mp hneg, hlt⟩
+          · exact hm2 x ((mem_vals_iff a ha x).mpr ⟨i, hi, e, hxz⟩)
+      rw [this]
+
+/-! ## `mix_from`: the receiver becomes the element-wise sum of the inlets -/
+
+theorem get_mergeWith_add (d o : Dct) (ho : (o.map Prod.fst).Nodup) (i : Nat) :
+    Dct.get (Dct.mergeWith (· + ·) d o) i = Dct.get d i + Dct.get o i := by
+  rw [Dct.get_mergeWith _ _ _ ho]
+  by_cases hh : o.has i = true
+  · simp [hh]
+  · have : Dct.get o i = 0 := Dct.get_eq_zero_of_not_has _ _ (by simpa using hh)
+    simp [hh, this]
+
+/-- **dense_hom for `mix_from`** (point-wise): every element of the receiver is the sum of the
+corresponding elements of the inlets; an inlet that *is* the receiver counts with its old value
+(`rep` = how often the receiver occurs among the inlets) -/
+theorem dense_hom_mixfrom (a : SV) (others : List SV) (rep : Nat) (ho : ∀ o ∈ others, o.WF) (i : Nat) :
+    (a.mixFrom others rep).get i = (rep : Rat) * a.get i + (others.map (fun o => o.get i)).sum := by
+  unfold SV.mixFrom
+  rw [SV.get_def]; dsimp only
+  have hstart : Dct.get (if rep = 0 then [] else a.dct.mapVals (· * (rep : Rat))) i = (rep : Rat) * a.get i := by
+    split
+    · rename_i hr; simp [hr, Dct.get_nil]
+    · rw [Dct.get_mapVals _ (by simp), SV.get_def]; ring
+  generalize (if rep = 0 then ([] : Dct) else a.dct.mapVals (· * (rep : Rat))) = start at hstart
+  rw [← hstart]
+  clear hstart
+  induction others generalizing start with
+  | nil => simp
+  | cons o rest ih =>
+    simp only [List.foldl_cons, List.map_cons, List.sum_cons]
+    rw [ih (fun o' ho' => ho o' (List.mem_cons_of_mem _ ho')), get_mergeWith_add _ _ (ho o List.mem_cons_self).1, SV.get_def]
+    ring
+
 end ThermoVerif.Props.C09
